@@ -39,6 +39,7 @@ impl FecEncoder for RaptorEncoder {
 
 pub struct RaptorDecoder {
     source_block_size: usize,
+    symbol_size: usize,
     decoder: raptor_code::SourceBlockDecoder,
     data: Option<Vec<u8>>,
 }
@@ -53,6 +54,8 @@ impl RaptorDecoder {
         RaptorDecoder {
             decoder: raptor_code::SourceBlockDecoder::new(nb_source_symbols),
             source_block_size,
+            // Size of the largest source symbol of the block
+            symbol_size: num_integer::div_ceil(source_block_size, nb_source_symbols.max(1)),
             data: None,
         }
     }
@@ -69,6 +72,14 @@ impl FecDecoder for RaptorDecoder {
             encoding_symbol.len(),
             self.source_block_size
         );
+
+        if encoding_symbol.len() < self.symbol_size {
+            // The source block is rebuilt from slices of symbol_size bytes,
+            // a shorter symbol stands for a symbol that ends with zeros
+            let mut symbol = encoding_symbol.to_vec();
+            symbol.resize(self.symbol_size, 0);
+            return self.decoder.push_encoding_symbol(&symbol, esi);
+        }
 
         self.decoder.push_encoding_symbol(encoding_symbol, esi)
     }
